@@ -17,7 +17,11 @@ namespace IstioModel.C18
 /-! ### pair_consistent -/
 
 /-- In every reachable state the cached item's key and chain come from one CA response, and so
-    does every value returned by any GenerateSecret call (finished or about to return). -/
+    does every value returned by any GenerateSecret call (finished or about to return).
+    In the model an item is only ever built by `newItem` with `key = cert`, and nothing ever combines
+    fields of two items (`getCachedSecret` copies both from one read of the cache), so this invariant
+    is structural; that the REAL key and leaf belong together is established per run by the oracle's
+    public-key comparison and by the key/cert ids of the `cache` / `conc` streams. -/
 theorem pair_consistent {y : Sys} (h : Reachable y) :
     (∀ w, y.st.workload = some w → w.key = w.cert) ∧
     (∀ q r, y.procs q = .gDone r → r.key = r.cert) ∧
@@ -149,7 +153,20 @@ theorem mutex_exclusive {y : Sys} (h : Reachable y) {p q : Nat} (hp : holds (y.p
 
 /-! ### one_renewal_per_cert -/
 
-/-- Exactly one queue entry exists per item ever stored in the cache. -/
+/-- Whatever certificate is cached, in any reachable state, its rotation task (same CreatedTime, same
+    ExpireTime) is in the queue: every certificate that is served has a renewal scheduled.  (No ghost
+    state is involved in this statement.) -/
+theorem cached_cert_has_rotation_scheduled {y : Sys} (h : Reachable y) {w : Item} (hw : y.st.workload = some w) :
+    ∃ en ∈ y.st.queue, en.created = w.created ∧ en.expire = w.expire ∧ 0 ≤ en.delay ∧
+      (en.created ≤ en.expire → en.computedAt ≤ en.expire → en.computedAt + en.delay ≤ en.expire) := by
+  obtain ⟨en, hm, e1, e2⟩ := (inv_reachable h).hasTask w hw
+  have hs := (inv_reachable h).sched.1 en hm
+  exact ⟨en, hm, e1, e2, hs.1, hs.2⟩
+
+/-- Bookkeeping with the ghost counter `stores` (incremented by the storing step only, see `queue_step`):
+    the number of queue entries equals the number of store operations.  By itself this is a statement
+    about the ghost counter; its content is `queue_step` (the queue changes only in the storing step, by
+    exactly one entry for the stored item) and `cached_cert_has_rotation_scheduled`. -/
 theorem one_entry_per_store {y : Sys} (h : Reachable y) : y.st.queue.length = y.st.stores :=
   (inv_reachable h).queue
 
@@ -183,6 +200,45 @@ theorem timer_clears_only_own {y : Sys} {p e : Nat} (i : Input) (hp : y.procs p 
   split
   · split <;> simp_all
   · simp
+
+/-! ### The rotation callback is delivered after the cache was emptied -/
+
+/-- Every `default` callback of a rotation task or of UpdateConfigTrustBundle, in every reachable state
+    of every schedule: the event records the cache as it is at that instant, and the cache is empty
+    unless some GenerateSecret call stored a certificate AFTER this process emptied it - the callback
+    never sees the certificate that was to be rotated (nor any certificate cached before the clear),
+    so a subscriber re-requesting from the callback cannot be answered with it. -/
+theorem rotation_event_after_clear {y : Sys} (h : Reachable y) {p m : Nat} (i : Input)
+    (hp : (∃ e, y.procs p = .tNotify e m) ∨ y.procs p = .uNotify m) :
+    (step y p i).st.events = y.st.events ++ [Ev.workload y.st.workload.isNone] ∧
+    (y.st.workload.isNone = false → m < y.st.stores) := by
+  have hn := (inv_reachable h).notify p m
+  rcases hp with ⟨e, hp⟩ | hp
+  · refine ⟨by simp [step, hp, notifyWorkload], fun hs => ?_⟩
+    have := hn (by simp [hp, notifyMark])
+    cases hw : y.st.workload <;> simp_all
+  · refine ⟨by simp [step, hp, notifyWorkload], fun hs => ?_⟩
+    have := hn (by simp [hp, notifyMark])
+    cases hw : y.st.workload <;> simp_all
+
+/-- The clear of a rotation task comes first and remembers the store counter. -/
+theorem timer_clear_then_notify {y : Sys} {p e : Nat} (i : Input) (hp : y.procs p = .tClear e) :
+    (step y p i).st.workload = none ∧ (step y p i).st.events = y.st.events ∧
+    (step y p i).procs p = .tNotify e y.st.stores := by
+  simp [step, hp, clearWorkload]
+
+/-- A `default` callback is only ever produced by those two notify steps (GenerateSecret announces
+    `ROOTCA` only). -/
+theorem workload_event_only_from_notify (y : Sys) (p : Nat) (i : Input) :
+    (step y p i).st.events = y.st.events ∨ (step y p i).st.events = y.st.events ++ [Ev.rootca] ∨
+    (((∃ e m, y.procs p = .tNotify e m) ∨ ∃ m, y.procs p = .uNotify m) ∧
+      (step y p i).st.events = y.st.events ++ [Ev.workload y.st.workload.isNone]) := by
+  unfold step
+  simp only [finish]
+  split
+  all_goals (repeat' split)
+  all_goals (simp_all [clearWorkload, notifyWorkload, afterRegState])
+  all_goals (try (split <;> simp_all))
 
 /-- A queue entry is run at most once: starting it marks it, a marked entry cannot be started. -/
 theorem timer_runs_once {y : Sys} {p e : Nat} {en : Entry} (hq : y.st.queue[e]? = some en) (hf : en.fired = true)
@@ -442,7 +498,8 @@ theorem root_change_announced_witness_unfixed :
 /-- UpdateConfigTrustBundle with a different bundle: stores it, notifies ROOTCA, then empties the
     cache and notifies `default`; with the same bundle nothing happens. -/
 theorem update_bundle_changed {y : Sys} {p : Nat} (b : List Nat) (i : Input) (hp : y.procs p = .idle) (hne : y.st.cfg ≠ b) :
-    (seqOp y p (.update b) i).st = clearWorkload { y.st with cfg := b, events := y.st.events ++ [Ev.rootca] } ∧
+    (seqOp y p (.update b) i).st =
+      notifyWorkload (clearWorkload { y.st with cfg := b, events := y.st.events ++ [Ev.rootca] }) ∧
     (seqOp y p (.update b) i).procs p = .uDone true := by
   unfold seqOp runAlone
   have e0 : spawn y p (.update b) = { y with procs := upd y.procs p (.uSet b) } := by simp [spawn, hp]
@@ -454,10 +511,24 @@ theorem update_bundle_changed {y : Sys} {p : Nat} (b : List Nat) (i : Input) (hp
   have e2 : step { y with st := { y.st with cfg := b, events := y.st.events ++ [Ev.rootca] },
                           procs := upd (upd y.procs p (.uSet b)) p .uClear } p i =
       { y with st := clearWorkload { y.st with cfg := b, events := y.st.events ++ [Ev.rootca] },
-               procs := upd (upd (upd y.procs p (.uSet b)) p .uClear) p (.uDone true) } := by
+               procs := upd (upd (upd y.procs p (.uSet b)) p .uClear) p (.uNotify y.st.stores) } := by
     simp [step]
-  rw [e2, stepN_uDone i (c := true) (by simp)]
+  rw [e2, stepN_succ]
+  have e3 : step { y with st := clearWorkload { y.st with cfg := b, events := y.st.events ++ [Ev.rootca] },
+                          procs := upd (upd (upd y.procs p (.uSet b)) p .uClear) p (.uNotify y.st.stores) } p i =
+      { y with st := notifyWorkload (clearWorkload { y.st with cfg := b, events := y.st.events ++ [Ev.rootca] }),
+               procs := upd (upd (upd (upd y.procs p (.uSet b)) p .uClear) p (.uNotify y.st.stores)) p (.uDone true) } := by
+    simp [step]
+  rw [e3, stepN_uDone i (c := true) (by simp)]
   simp
+
+/-- ... in that order: `ROOTCA` is announced first, the `default` callback comes after the cache was
+    emptied and finds it empty. -/
+theorem update_bundle_events {y : Sys} {p : Nat} (b : List Nat) (i : Input) (hp : y.procs p = .idle) (hne : y.st.cfg ≠ b) :
+    (seqOp y p (.update b) i).st.events = y.st.events ++ [Ev.rootca, Ev.workload true] ∧
+    (seqOp y p (.update b) i).st.workload = none := by
+  rw [(update_bundle_changed b i hp hne).1]
+  simp [notifyWorkload, clearWorkload]
 
 theorem update_bundle_same {y : Sys} {p : Nat} (i : Input) (hp : y.procs p = .idle) :
     (seqOp y p (.update y.st.cfg) i).st = y.st ∧ (seqOp y p (.update y.st.cfg) i).procs p = .uDone false := by
@@ -469,6 +540,34 @@ theorem update_bundle_same {y : Sys} {p : Nat} (i : Input) (hp : y.procs p = .id
     simp [step]
   rw [e1, stepN_uDone i (c := false) (by simp)]
   simp
+
+/-- Sequential caller (what the `cache` stream executes): the rotation task of the cached certificate
+    empties the cache and then delivers exactly one `default` callback, which finds the cache empty. -/
+theorem timer_own_sequential {y : Sys} {p e : Nat} {en : Entry} {c : Item} (i : Input) (hp : y.procs p = .idle)
+    (hq : y.st.queue[e]? = some en) (hf : en.fired = false) (hw : y.st.workload = some c)
+    (hc : c.created = en.created) :
+    (seqOp y p (.timer e) i).st.workload = none ∧
+    (seqOp y p (.timer e) i).st.events = y.st.events ++ [Ev.workload true] ∧
+    (seqOp y p (.timer e) i).procs p = .tDone e true := by
+  have hlt : e < y.st.queue.length := by
+    rcases Nat.lt_or_ge e y.st.queue.length with h | h
+    · exact h
+    · rw [List.getElem?_eq_none h] at hq; cases hq
+  have hm : markFired y.st.queue e = y.st.queue.set e { en with fired := true } := by
+    unfold markFired; rw [hq]
+  unfold seqOp runAlone
+  have e0 : spawn y p (.timer e) =
+      { y with st := { y.st with queue := y.st.queue.set e { en with fired := true } }, procs := upd y.procs p (.tCheck e) } := by
+    unfold spawn; simp only [hp, hq, hf, hm]; simp
+  rw [e0, stepN_succ]
+  have e1 : step { y with st := { y.st with queue := y.st.queue.set e { en with fired := true } },
+                          procs := upd y.procs p (.tCheck e) } p i =
+      { y with st := { y.st with queue := y.st.queue.set e { en with fired := true } },
+               procs := upd (upd y.procs p (.tCheck e)) p (.tClear e) } := by
+    simp [step, hw, hc, List.getElem?_set, hlt]
+  rw [e1, stepN_succ]
+  simp only [step, upd_same, stepN_succ]
+  simp [stepN, step, clearWorkload, notifyWorkload]
 
 /-! ### root_includes_ca : mergeTrustAnchorBytes is a sorted, duplicate-free union -/
 
@@ -581,6 +680,6 @@ example :
     let y4 := seqOp y3 4 (.timer 1) {}
     y2.st.queue.length = 2 ∧ y3.procs 3 = .tDone 0 false ∧ y3.st.workload = y2.st.workload ∧
     y4.procs 4 = .tDone 1 true ∧ y4.st.workload = none ∧
-    y4.st.events = [Ev.rootca, Ev.rootca, Ev.workload, Ev.workload] := by decide
+    y4.st.events = [Ev.rootca, Ev.rootca, Ev.workload true, Ev.workload true] := by decide
 
 end IstioModel.C18
